@@ -44,6 +44,95 @@ if not m:
     die(f"{T}: BATTERY_FORMS not found in harness/c17/src/runner.rs")
 battery = sorted(set(re.findall(r'"(\w+)"', m.group(1))))
 
+# ---------------------------------------------------------------- matcher keys: index column vs view path
+# `column_of` (the index column a present-day read filters on) and `view_key` (the path the historical
+# re-check reads in the rendered view) are two tables over (element kind, matcher key); both are extracted,
+# `*` (any kind) is expanded over the kinds `match_element` is called for, and every path `view_key` yields
+# for a key `column_of` knows must exist in that kind's rendered view (`view.rs`).
+def no_line_comments(text):
+    return re.sub(r"(?m)^\s*//[^\n]*$", "", text)
+mraw = cut_tests(no_line_comments(read_source(repo, "rs/anda_cognitive_nexus/src/kql/matching.rs")))
+def raw_fn(text, name):
+    m0 = re.search(r"\bfn\s+" + name + r"\s*\(", text)
+    if not m0:
+        die(f"{T}: fn {name} not found")
+    i = text.index("{", m0.end()); depth = 0; j = i
+    while j < len(text):
+        depth += {"{": 1, "}": -1}.get(text[j], 0)
+        if depth == 0: break
+        j += 1
+    return text[i + 1:j]
+def arms(name):
+    """(kind | *, key, value) for every arm, or-patterns and block bodies included"""
+    out = []
+    one = r'\(\s*(?:_|ElementKind\s*::\s*\w+)\s*,\s*"\w+"\s*\)'
+    for m1 in re.finditer(r'((?:' + one + r'\s*\|?\s*)+)=>\s*\{?\s*(?:Some\s*\(\s*)?"([\w.]+)"', raw_fn(mraw, name)):
+        for k, key in re.findall(r'\(\s*(_|ElementKind\s*::\s*\w+)\s*,\s*"(\w+)"\s*\)', m1.group(1)):
+            out.append(("*" if k == "_" else k.split("::")[-1].strip(), key, m1.group(2)))
+    if not out:
+        die(f"{T}: no (kind, key) arms found in {name}")
+    return out
+col, vk = arms("column_of"), arms("view_key")
+kinds = sorted(set(re.findall(r"match_element\s*\(\s*ElementKind\s*::\s*(\w+)", body)))
+if not kinds:
+    die(f"{T}: match_element is not called with an explicit ElementKind")
+def expand(table):
+    d = {}
+    for k, key, val in table:          # explicit arms first (source order: the first matching arm wins)
+        for kk in (kinds if k == "*" else [k]):
+            if kk in kinds:
+                d.setdefault((kk, key), val)
+    return d
+cold, vkd = expand(col), expand(vk)
+pairs = sorted(set(cold) | set(vkd))
+def view_path(kind, key):
+    return vkd.get((kind, key), key)
+
+vsrc = cut_tests(strip_rust_comments(read_source(repo, "rs/anda_cognitive_nexus/src/view.rs")))
+def view_paths(fn):
+    b = try_fn_body(vsrc, fn)
+    if b is None:
+        die(f"{T}: view.rs has no fn {fn}")
+    paths, stack, last, i = set(), [], None, 0
+    while i < len(b):
+        c = b[i]
+        m1 = re.match(r"([A-Za-z_]\w*)\s*:(?!:)", b[i:]) if (c.isalpha() or c == "_") and (i == 0 or not (b[i-1].isalnum() or b[i-1] in "_:.")) else None
+        if m1:
+            last = m1.group(1); paths.add(".".join([x for x in stack if x] + [last])); i += m1.end(); continue
+        if c.isalpha() or c == "_":
+            m2 = re.match(r"\w+", b[i:]); i += m2.end(); continue
+        if c == "{": stack.append(last); last = None
+        elif c == "}":
+            if stack: stack.pop()
+            last = None
+        i += 1
+    out = set()
+    for pth in paths:
+        segs = pth.split(".")
+        if "envelope" in segs:          # the envelope is flattened: `id`, `kind`, and the rest under `_system`
+            leaf = segs[-1]
+            out.add(leaf if leaf in ("id", "kind") else "_system." + leaf)
+            out.add("_system")
+        else:
+            # keep the path below the top-level struct literal (drop the binding's own nesting level)
+            out.add(".".join(segs[-2:]) if len(segs) >= 2 and segs[-2] in ("lifecycle", "valid_time") else segs[-1] if len(segs) <= 2 else ".".join(segs[-2:]))
+    return out
+VIEW_FN = {"Concept": "concept", "Assertion": "assertion", "Evidence": "evidence", "Activity": "activity", "Proposition": "proposition"}
+missing = []
+for (k, key) in sorted(cold):
+    pth = view_path(k, key)
+    have = view_paths(VIEW_FN[k])
+    nested_only = {x.split(".")[-1] for x in have if "." in x and not x.startswith("_system")} - {x for x in have if "." not in x}
+    ok = pth in have and not (("." not in pth) and pth in nested_only)
+    if not ok:
+        missing.append(f"{k}.{key}->{pth}")
+view_paths_exist = not missing
+
+mk = re.search(r"BATTERY_KEYS\s*:\s*\[[^\]]*\]\s*=\s*\[(.*?)\];", rs, re.S)
+if not mk:
+    die(f"{T}: BATTERY_KEYS not found in harness/c17/src/runner.rs")
+battery_keys = sorted(set(f"{a}.{b_}" for a, b_ in re.findall(r'\(\s*"(\w+)"\s*,\s*"(\w+)"\s*\)', mk.group(1))))
+
 def lst(xs):
     return "[" + ", ".join('"' + x + '"' for x in xs) + "]"
 
@@ -59,6 +148,18 @@ def batteryForms : List String := {lst(battery)}
 returns before any present-day index is asked -/
 def historicalCandidatesFromVersionLog : Bool := {"true" if hist_first else "false"}
 
+/-- the element kinds `match_element` is called for -/
+def matchableKinds : List String := {lst(kinds)}
+/-- every (kind, matcher key) pair `column_of` (index column of a present-day read) or `view_key` (view
+path of the historical re-check) knows, `kind.key`, "any kind" expanded over `matchableKinds` -/
+def matcherKeys : List String := {lst([f"{k}.{key}" for k, key in pairs])}
+/-- the pairs the battery constrains in some query (`BATTERY_KEYS`, verified by the harness at start-up) -/
+def batteryKeys : List String := {lst(battery_keys)}
+/-- for every pair `column_of` knows, the path `view_key` reads exists in that kind's rendered view
+(`view.rs`), at the nesting level it is read at; the pairs for which it does not: -/
+def viewPathsMissing : List String := {lst(missing)}
+
+theorem gen_view_paths_exist : viewPathsMissing = [] := by decide
 theorem gen_query_forms : queryForms = {lst(forms)} := by decide
 theorem gen_historical_candidates : historicalCandidatesFromVersionLog = true := by decide
 
